@@ -151,8 +151,8 @@ def check_solution(res, year, sol, label, rp, base_keys=None):
             for r in rs:
                 if r.kind == 'carry-out' and (form, line) in CARRY_GUARDS and not CARRY_GUARDS[(form, line)](sol):
                     continue
-                if base_keys is not None and f'{full}.{line}' not in base_keys and r.kind in ('carry-in', 'carry-out'):
-                    continue        # a line the return does not use: only its own-form arithmetic is meaningful
+                if base_keys is not None and not (f'{full}.{line}' in base_keys and r.kind == 'carry-in'):
+                    continue        # second pass: only carries INTO lines the return uses (the operand may be a line the code failed to read)
                 status_, exp, got = ev.check(r, full, places_of)
                 if status_ == 'skip':
                     continue
@@ -180,7 +180,7 @@ def check_solution(res, year, sol, label, rp, base_keys=None):
                     continue
                 except (TypeError, KeyError, ZeroDivisionError):
                     continue
-                if base_keys is not None and key not in base_keys and c.cross:
+                if base_keys is not None and not (key in base_keys and c.cross):
                     continue
                 got = sol[key]
                 if isinstance(got, bool) or not isinstance(got, (int, float)):
@@ -270,6 +270,22 @@ def directed_personas(year, seed, n):
                                divs=[{'box_1a': round(r.uniform(500, 9000), 2), 'box_1b': round(r.uniform(100, 500), 2), 'box_2a': round(r.uniform(0, 4000), 2), 'box_4': 0.0,
                                       'box_5': round(r.uniform(10, 400), 2), 'box_7': round(r.choice([0, 40.0]), 2), 'box_16_1': 0.0} for _ in range(2)])
         out.append(('F2d', p))
+        # very high earner with qualified dividends: 20 % capital-gain bracket, AMT exemption phase-out (partial solution: Form 6251 is unsupported)
+        st = r.choice(['S', 'MFJ', 'HOH', 'MFS'])
+        w = round(r.uniform(600000, 1400000), 2)
+        p = scen.plain_persona(year, st, [w / 2, w / 2] if st == 'MFJ' else [w / 2, w / 2], key=f'dirrich:{seed}:{k}', deps_odc=1 if st == 'HOH' else 0, n_div=1,
+                               divs=[{'box_1a': 90000.0, 'box_1b': round(r.uniform(20000, 80000), 2), 'box_2a': round(r.uniform(0, 30000), 2), 'box_4': 0.0, 'box_5': 0.0, 'box_7': 0.0, 'box_16_1': 0.0}])
+        for d in p.w2:      # the employer withholds the additional 0.9 % above 200,000
+            d['box_6'] = round(d['box_5'] * 0.0145 + max(0.0, d['box_5'] - 200000.0) * 0.009, 2)
+        out.append(('F6r', p))
+        # Roth distributions (Form 8606 part III) next to a traditional IRA distribution
+        p = scen.plain_persona(year, 'S', round(r.uniform(50000, 90000), 2), key=f'dirroth:{seed}:{k}')
+        p.n_1099r = 1
+        p.f1099r = [{'box_1': 4000.0, 'box_2a': 4000.0, 'box_4': 0.0, 'ira': True, 'belongs_to': 'taxpayer', 'box_14_1': 0.0}]
+        p.ira_mode = '8606'
+        p.f8606.update({'part_1_needed': False, 'part_2_needed': False, 'part_3_needed': True, 'total_nonqualified_distributions': round(r.uniform(3000, 9000), 2),
+                        'qualified_homebuyer': round(r.choice([0, 1000.0]), 2), 'roth_ira_contributions_basis': round(r.uniform(500, 12000), 2)})
+        out.append(('F5r', p))
     return out
 
 
@@ -291,8 +307,11 @@ def run_shard(spec, tier, seed):
             res.count('solutions_checked')
             check_solution(res, year, sol, f'{year} {fam} {p.key}', realwork.replay_of(p, 'base', spec))
             # second pass: the same return with EVERY line of every participating form
-            # demanded (optional lines through field_names), so that each rule's
-            # operands are produced even where the code under test reads another line
+            # demanded (optional lines through field_names), so that the operand of a
+            # carry exists even where the code under test reads another line.  Only
+            # carries into lines of the real return are judged there: own-form
+            # arithmetic of lines the return never asked for would judge parts of forms
+            # the instructions say to skip (e.g. Form 8606 lines 6-13 without a distribution)
             try:
                 forms = [f for f in out.solver.forms]
                 names = []
